@@ -325,3 +325,89 @@ Proof.
     repeat split; auto. intros c f. rewrite H4. apply body_of_need_sound.
   - destruct (IH _ Hrest g Hin) as [n [Hn H]]. exists n. split; [right; assumption | exact H].
 Qed.
+
+(* the converse reading of the row-by-row match: every need has its `notices` rule *)
+Lemma table_matches_sound_conv gs ns :
+  table_matches gs ns = true ->
+  forall n, In n ns ->
+  exists g, In g gs /\ g_cat g = nd_cat n /\ g_title g = nd_title n /\ g_severity g = nd_severity n /\
+            forall c f, eval_body c f (g_body g) = need_unmet (nd_need n) c f.
+Proof.
+  revert ns. induction gs as [|g0 gs IH]; intros [|n0 ns]; simpl; try discriminate; [tauto|].
+  rewrite andb_true_iff. intros [Hrow Hrest] n [<-|Hin].
+  - exists g0. unfold row_matches in Hrow. rewrite !andb_true_iff, !str_eqb_eq in Hrow.
+    destruct Hrow as [[[H1 H2] H3] H4]. apply body_eqb_eq in H4.
+    repeat split; auto. intros c f. rewrite H4. apply body_of_need_sound.
+  - destruct (IH _ Hrest n Hin) as [g [Hg H]]. exists g. split; [right; assumption | exact H].
+Qed.
+
+Lemma rule_eqb_refl r : rule_eqb r r = true.
+Proof. unfold rule_eqb. rewrite !str_eqb_refl. reflexivity. Qed.
+
+Lemma rule_eqb_eq a b : rule_eqb a b = true <-> a = b.
+Proof.
+  destruct a, b. unfold rule_eqb. simpl. rewrite andb_true_iff, !str_eqb_eq. split.
+  - intros [-> ->]. reflexivity.
+  - intros [= -> ->]. auto.
+Qed.
+
+(* notices computed from a table of gates *)
+Lemma table_notices_In table c r f n :
+  In n (table_notices table c r f) <->
+  exists g, In g table /\ (g_cat g, g_title g) = r /\ eval_body c f (g_body g) = true /\ n = notice_of_row g.
+Proof.
+  unfold table_notices. rewrite in_map_iff. split.
+  - intros [g [<- Hg]]. apply filter_In in Hg as [Hg Hc]. apply andb_true_iff in Hc as [Hr Hb].
+    apply rule_eqb_eq in Hr. exists g. auto.
+  - intros [g [Hg [Hr [Hb ->]]]]. exists g. split; [reflexivity|]. apply filter_In. split; [assumption|].
+    rewrite Hb, andb_true_r. apply rule_eqb_eq. assumption.
+Qed.
+
+(* End to end, for any table of gates that matches a table of needs: a rule to run whose need is unmet
+   for every file of the run reports nothing (whatever its report body says) and is listed with a
+   notice of the severity written down for that need; and a notice is only ever listed for an unmet need. *)
+Section EndToEnd.
+  Variables F V : Type.
+  Variable info : F -> file_info.
+  Variable report_of custom_report_of : rule_id -> F -> list V.
+  Variables (gs : list gate_row) (ns : list need_row).
+  Hypothesis Hmatch : table_matches gs ns = true.
+  Variable c : caps.
+
+  Let notices_of (r : rule_id) (f : F) : list notice := table_notices gs c r (info f).
+
+  Lemma unmet_need_silent_and_listed to_run custom_to_run order nd :
+    In nd ns ->
+    let r := (nd_cat nd, nd_title nd) in
+    In r to_run -> ~ In r custom_to_run ->
+    order <> [] ->
+    (forall f, In f order -> need_unmet (nd_need nd) c (info f) = true) ->
+    (forall f v, ~ In (f, (r, v)) (rego_violations F V notices_of report_of custom_report_of to_run custom_to_run order)) /\
+    exists n, In n (lint_notices F notices_of to_run order) /\
+              n_category n = nd_cat nd /\ n_title n = nd_title nd /\ n_severity n = nd_severity nd /\ n_level n = s_notice.
+  Proof.
+    intros Hnd r Hr Hc Hne Hun.
+    destruct (table_matches_sound_conv _ _ Hmatch nd Hnd) as [g [Hg [H1 [H2 [H3 H4]]]]].
+    assert (Hnot : forall f, In f order -> In (notice_of_row g) (notices_of r f)).
+    { intros f Hf. apply table_notices_In. exists g. split; [assumption|]. split; [unfold r; congruence|].
+      split; [rewrite H4; apply Hun; assumption | reflexivity]. }
+    split.
+    - apply gated_rule_silent_run; [assumption|]. intros f Hf Hnil. specialize (Hnot f Hf). rewrite Hnil in Hnot. exact Hnot.
+    - destruct order as [|f0 order']; [contradiction|].
+      exists (notice_of_row g). split.
+      + apply (noticed_rule_is_listed F notices_of to_run (f0 :: order') r f0); [assumption | left; reflexivity | apply Hnot; left; reflexivity].
+      + unfold notice_of_row. simpl. auto.
+  Qed.
+
+  Lemma listed_notice_has_unmet_need to_run order n :
+    In n (lint_notices F notices_of to_run order) ->
+    exists nd f, In nd ns /\ In f order /\ In (nd_cat nd, nd_title nd) to_run /\
+                 need_unmet (nd_need nd) c (info f) = true /\
+                 n_category n = nd_cat nd /\ n_title n = nd_title nd /\ n_severity n = nd_severity nd.
+  Proof.
+    intros Hn. apply (proj1 (proj2 (lint_notices_spec F notices_of to_run order))) in Hn.
+    destruct Hn as [f [r [Hf [Hr Hn]]]]. apply table_notices_In in Hn as [g [Hg [Hgr [Hb ->]]]].
+    destruct (table_matches_sound _ _ Hmatch g Hg) as [nd [Hnd [H1 [H2 [H3 H4]]]]].
+    exists nd, f. rewrite <- H4, Hb, <- H1, <- H2, <- H3. rewrite Hgr. unfold notice_of_row. simpl. auto 10.
+  Qed.
+End EndToEnd.
